@@ -69,6 +69,13 @@ def cases(draw, depth):
             return "".join(seg + (draw(st.sampled_from((brk, brk, "\n"))) if i < len(segs) - 1 else "") for i, seg in enumerate(segs))
 
         text = text.replace("'x'", f"'{mb}'").replace('"Col"', f'"C{mb}l"' if draw(st.booleans()) else f'"{multi("C")}"').replace("'abc'", f"'{multi('a' + mb)}'").replace("'a b'", f"'{multi('a')}'")
+    if draw(st.integers(0, 3)) == 0:
+        # constructs whose scanning looks AHEAD or consumes two characters at once: positional parameters ($1 -- a dollar sign
+        # starts a heredoc-tag lookahead in several dialects), a backslash followed by a real line break inside a string,
+        # dollar-quoted strings spanning lines
+        brk2 = draw(st.sampled_from(("\n", "\r\n", "\n\n")))
+        extra = draw(st.sampled_from((f"$1{brk2}, $2", f"'p\\{brk2}q'", f"$1 + $2{brk2}", f"$$d{brk2}e$$", f"$t$d{brk2}e$t${brk2}", f":p1{brk2}, @v", f"'r\\\\'{brk2}")))
+        text = text.replace("SELECT ", f"SELECT {extra}, ", 1) if "SELECT " in text else text
     mutation = draw(st.sampled_from((None, None, None, "truncate", "drop", "dup", "swap")))
     pos = draw(st.integers(0, 1000))
     return {"sql": text, "mutation": mutation, "pos": pos, "dialects": draw(st.lists(st.sampled_from(sqlcore.dialect_names()), min_size=4, max_size=4, unique=True))}
